@@ -158,7 +158,7 @@ static BIN: OnceLock<Result<PathBuf, String>> = OnceLock::new();
 
 /// The tuftool binary under test: built from /repo's working tree once per process (before any
 /// use), or the binary named by VERIF_TUFTOOL_BIN (sensitivity runs).
-fn tuftool() -> Result<PathBuf, String> {
+pub fn tuftool() -> Result<PathBuf, String> {
     BIN.get_or_init(|| {
         if let Some(p) = std::env::var_os("VERIF_TUFTOOL_BIN") {
             if !p.is_empty() {
